@@ -13,6 +13,9 @@ type DiffEntry struct {
 	SrcIP, DstIP   bool
 	C1, C2         string // canonical connection strings ("No Connections" if absent)
 	SrcNew, DstNew bool   // IsSrcNewOrRemoved / IsDstNewOrRemoved
+	Declared       string // DiffType() of the entry itself
+	SrcName        string // Name() of the source peer
+	DstName        string
 }
 
 type DiffResult struct {
@@ -49,7 +52,8 @@ func RunDiff(infos1, infos2 []*resource.Info, opts ...diff.DiffAnalyzerOption) (
 	add := func(t string, l []diff.SrcDstDiff) {
 		for _, e := range l {
 			res.Entries = append(res.Entries, DiffEntry{Type: t, Src: e.Src().String(), Dst: e.Dst().String(), SrcIP: e.Src().IsPeerIPType(), DstIP: e.Dst().IsPeerIPType(),
-				C1: connOf(e.Ref1Connectivity()), C2: connOf(e.Ref2Connectivity()), SrcNew: e.IsSrcNewOrRemoved(), DstNew: e.IsDstNewOrRemoved()})
+				C1: connOf(e.Ref1Connectivity()), C2: connOf(e.Ref2Connectivity()), SrcNew: e.IsSrcNewOrRemoved(), DstNew: e.IsDstNewOrRemoved(),
+				Declared: string(e.DiffType()), SrcName: e.Src().Name(), DstName: e.Dst().Name()})
 		}
 	}
 	add("removed", d.RemovedConnections())
